@@ -367,6 +367,20 @@ def scen_life(env, fault_idx, cause, order_idx, sym_stop=False, second=None):
         res['late_events'] = len(log.ev)
     n_before = None
     saved = signal.getsignal(signal.SIGTERM)
+    # every block - the implicitly created ones too (_ctrl, automatic Repeat, '_not_' inverters) - ends its start() and
+    # stop() chain in the hooks of the base class: counted there
+    base = {}
+    from edzed import block as _block
+    o_start, o_stop = _block.Block.start, _block.Block.stop
+
+    def b_start(self_):
+        o_start(self_)
+        base.setdefault(self_.name, [0, 0])[0] += 1
+
+    def b_stop(self_):
+        base.setdefault(self_.name, [0, 0])[1] += 1
+        o_stop(self_)
+    _block.Block.start, _block.Block.stop = b_start, b_stop
     try:
         if cblock_ctrl:
             # both evaluation orders of the two CBlocks fed by 'pb' (solver-enumerated set order)
@@ -376,6 +390,7 @@ def scen_life(env, fault_idx, cause, order_idx, sym_stop=False, second=None):
             simulator.set = ChoiceSet
         vloop.run(main())
     finally:
+        _block.Block.start, _block.Block.stop = o_start, o_stop
         if cblock_ctrl:
             del simulator.set
         signal.signal(signal.SIGTERM, saved)
@@ -395,6 +410,13 @@ def scen_life(env, fault_idx, cause, order_idx, sym_stop=False, second=None):
             env.check('stopped-exactly-once', sp == 1, info=lambda: (n, sr, sp, fault, cause, log.ev))
         else:
             env.check('not-started-not-stopped', sp == 0, info=lambda: (n, sr, sp, fault, cause))
+    for n in names:
+        if n in blocks:
+            continue
+        sr, sp = base.get(n, [0, 0])
+        env.note('implicit-block-accounted')
+        env.check('stopped-exactly-once' if sr else 'not-started-not-stopped', sp == (1 if sr else 0) and sr <= 1,
+                  info=lambda: ('implicit block', n, sr, sp, fault, cause))
     # blocks with asynchronous clean-up are stopped (and awaited) before the remaining blocks
     async_blocks = [n for n in ('pa', 'rep', 'oa', 'oas', 'mt') if log.count(n, 'stop')]
     sync_blocks = [n for n in ('pb', 'pa2', 'tm', 'of', 'fb', 'trig') if log.count(n, 'stop')]
